@@ -72,8 +72,8 @@ def OwnName (enc : Bytes → Bytes) : Op → Acc → Bytes → Prop
     ∃ u, parseUuid uid = some u ∧ acc = .read ∧ (n = uploadInfoName u ∨ uploadPartPrefix u <+: n)
   | .completeMultipartUpload b k uid parts c, _, n =>
     ∃ u, parseUuid uid = some u ∧
-      (n = uploadInfoName u ∨ n = metadataName enc b k (some u) ∨ n = metadataName enc b k none ∨ n = tmpName c ∨
-        ∃ i ∈ parts.getD [], n = uploadPartName u i)
+      (n = uploadInfoName u ∨ n = metadataName enc b k (some u) ∨ n = metadataName enc b k none ∨
+        n = internalInfoName enc b k ∨ n = tmpName c ∨ ∃ i ∈ parts.getD [], n = uploadPartName u i)
   | .abortMultipartUpload b k uid, _, n =>
     ∃ u, parseUuid uid = some u ∧
       (n = uploadInfoName u ∨ n = metadataName enc b k (some u) ∨ uploadPartPrefix u <+: n)
